@@ -143,9 +143,14 @@ CLAIMS = {
             '(reads may be short at any call), Ok => the bytes written are enc(data) and the SPEC decoders sp_lzma2 / sp_xz (the ones the real '
             'decoders are verified against) decode enc(data) back to exactly data (round-trip lemma chain lemma_xz_roundtrip, l2_decodes_to), '
             'including empty input and lengths on the 64 KiB chunk boundary ((n-1) as u16 proved exact), index / padding / backward-size '
-            'arithmetic, multibyte integers. NOT COVERED (honest gap): lzma_compress / lzma_compress_with_options -- the literal-only encoder '
-            'and the range encoder (carry propagation) are not under contract, so a defect there is not detected by this check; '
-            'interoperability with an independent decoder is represented by the format spec functions, not by running liblzma.',
+            'arithmetic, multibyte integers. For lzma_compress the proof is PARTIAL: the .lzma header written by Encoder::from_stream is proved '
+            'to be read back by the decoder header parser with the same parameters for each size option (lemma_lzma_header_roundtrip); the '
+            'range encoder is verified against its carry invariant (RangeEncoder::wf / re_fits: a carry out of `low` is always absorbed by '
+            'the cached byte, the interval top never exceeds what the pending bytes can represent; write_low, normalize, encode_bit, finish, '
+            'encode_literal, Encoder::finish all preserve it and are overflow-free). NOT PROVED: that the spec decoder reads the encoded bits '
+            'back from the bytes written (range-coder duality), Encoder::process (io::Bytes iterator, outside the verifier subset) and the '
+            'two lzma_compress entry points; interoperability with an independent decoder is represented by the format spec functions, not '
+            'by running liblzma.',
             'Verus encoder contracts + spec-level round-trip lemmas', '5 C04'),
 }
 NOT_YET = 'check not built yet (build in progress; see DESIGN.md section 8)'
